@@ -1,9 +1,16 @@
 """C20 — integer math helpers and Aggregate: family completeness, intrinsic guards and
 widths, signed forwarding, bit provenance of the portable fall-backs, overflow before
-narrowing, total predicates, Aggregate pre-state purity / twin formulas / guards."""
+narrowing, total predicates, Aggregate pre-state purity / twin formulas / guards.
+
+Verdict policy of this file: a violation is reported only on positive evidence, i.e. a concrete counterexample produced by
+an evaluation of the extracted code (a value for which the helper yields the wrong result or reaches undefined behaviour, a
+result bit that comes from the wrong input bit, a sample state on which operator+= leaves a wrong field).  The structural
+shapes of the first version (dominating zero test, intrinsic suffix, cast to the same-width counterpart, `param + const`)
+are kept as the fast path that establishes "holds" and as the *suspicion* that triggers an evaluation; a suspicion that the
+evaluation cannot confirm or refute is "cannot decide" (exit 2), never a violation."""
 from fractions import Fraction
 
-from engine import ir, dtable, match, cfg as cfgm
+from engine import ir, dtable, match, skel, cfg as cfgm
 from engine.ir import kids, strip_casts, const_int, ref_of
 
 INTS = ["int", "unsigned int", "long", "unsigned long", "long long", "unsigned long long"]
@@ -11,67 +18,439 @@ WIDTH = {"int": 32, "unsigned int": 32, "long": 64, "unsigned long": 64, "long l
 FAMILIES = ["clz", "ctz", "ffs", "popcount", "integer_log2_floor", "integer_log2_ceil", "is_power_of_two",
             "round_up_to_power_of_two", "round_down_to_power_of_two"]
 BUILTIN_W = {"": 32, "l": 64, "ll": 64}
+BUILTIN_BASES = ("__builtin_clz", "__builtin_ctz", "__builtin_ffs", "__builtin_popcount")
+
+# value ranges of the integer types as tlxir prints them (canonical spelling, LP64)
+ITY = {"bool": (0, 1), "char": (-128, 127), "signed char": (-128, 127), "unsigned char": (0, 255),
+       "short": (-2 ** 15, 2 ** 15 - 1), "unsigned short": (0, 2 ** 16 - 1), "int": (-2 ** 31, 2 ** 31 - 1), "unsigned int": (0, 2 ** 32 - 1),
+       "long": (-2 ** 63, 2 ** 63 - 1), "unsigned long": (0, 2 ** 64 - 1), "long long": (-2 ** 63, 2 ** 63 - 1),
+       "unsigned long long": (0, 2 ** 64 - 1)}
+FTY = ("float", "double", "long double")
+NUMCASTS = ("ImplicitCastExpr", "CStyleCastExpr", "CXXStaticCastExpr", "CXXFunctionalCastExpr")
+
+
+def bare(ty):
+    return (ty or "").replace("const ", "").replace("volatile ", "").replace("&", "").strip()
 
 
 def ptype(fn, i=0):
-    t = fn.params[i]["ty"]
-    return t.replace("const ", "").replace(" &", "").replace("&", "").strip()
+    return bare(fn.params[i]["ty"])
+
+
+def irange(ty):
+    return ITY.get(bare(ty))
+
+
+def iwidth(ty):
+    r = irange(ty)
+    return None if r is None else (r[1] - r[0]).bit_length()
+
+
+def wrap(v, rng):
+    return (v - rng[0]) % (rng[1] - rng[0] + 1) + rng[0]
+
+
+def numeric(v):
+    return isinstance(v, (int, Fraction))
+
+
+def is_this_object(n):
+    """the expression is `this` or `*this`"""
+    n = strip_casts(n)
+    if n is None:
+        return False
+    if n["k"] == "This":
+        return True
+    return n["k"] == "UnaryOperator" and n.get("op") == "*" and bool(kids(n)) and (strip_casts(kids(n)[0]) or {}).get("k") == "This"
+
+
+def this_field(n):
+    """field name if n is this->f, (*this).f or f (implicit this)"""
+    n = strip_casts(n)
+    if n is not None and n["k"] == "MemberExpr" and kids(n) and is_this_object(kids(n)[0]):
+        return n["member"]
+    return None
+
+
+# ---------------------------------------------------------------- evaluation with C++ value semantics
+class CSkel(skel.Skel):
+    """the integer skeleton with the value semantics of C++ on an LP64 target: every integral conversion wraps to its target
+    type, unsigned arithmetic is modular, a signed result outside its type and a shift by a negative amount / by the width
+    or more are recorded as undefined behaviour in `log`, `/` is truncating for integral and exact (Fraction) for floating
+    types and a division by zero is recorded.  Values that are data stay None: whoever needs them cannot decide."""
+
+    def __init__(self, *a, **kw):
+        super().__init__(*a, **kw)
+        self.log = []
+        self.written = set()
+        self.cur = None
+        self.top = self.fn
+        self.raw = None          # optional: sees every expression before casts / converting constructions are looked through
+
+    def conv(self, v, ty):
+        t = bare(ty)
+        if not numeric(v):
+            return v
+        if t == "bool":
+            return v != 0
+        if t in ITY:
+            return wrap(int(v), ITY[t])          # int(Fraction) truncates towards zero like a floating -> integral conversion
+        if isinstance(v, bool):
+            return int(v)
+        return v
+
+    def _fit(self, r, e, op, a, b, ty=None):
+        """brings the exact result r of a (op) b to the type of node e"""
+        rng = irange(ty if ty is not None else e.get("ty"))
+        if rng is None or not isinstance(r, int) or isinstance(r, bool):
+            return r
+        if not rng[0] <= r <= rng[1]:
+            if rng[0] < 0 and rng[1] >= 2 ** 31 - 1 and op in ("+", "-", "*", "++", "--", "neg"):
+                self.log.append(("overflow", e, op, a, b, r))
+            elif rng[0] == 0 and op in ("+", "++", "*"):
+                self.log.append(("wrap", e, op, a, b, r))
+            r = wrap(r, rng)
+        return r
+
+    def ev(self, e):
+        if e is None:
+            return None
+        k = e["k"]
+        if self.raw is not None:
+            r = self.raw(e, self)
+            if r is not NotImplemented:
+                return r
+        if k in NUMCASTS and kids(e) and (bare(e.get("ty")) in ITY or bare(e.get("ty")) in FTY):
+            return self.conv(self.ev(kids(e)[0]), e.get("ty"))
+        if k == "MemberExpr" and this_field(e) and not match.this_field(e):
+            if self.event is not None:
+                r = self.event(e, self)
+                if r is not NotImplemented:
+                    return r
+            return self.env.get(("field", this_field(e)))
+        if k == "FloatingLiteral":
+            try:
+                return Fraction(e["val"]).limit_denominator(10 ** 9)
+            except (TypeError, ValueError, KeyError):
+                return None
+        if k == "UnaryOperator" and e.get("op") in ("++", "--") and kids(e):
+            if self.event is not None:
+                r = self.event(e, self)
+                if r is not NotImplemented:
+                    return r
+            key = self.lvalue(kids(e)[0])
+            old = self.load(key)
+            if not numeric(old) or isinstance(old, bool):
+                self.store(key, None)
+                return None
+            new = self._fit(old + (1 if e["op"] == "++" else -1), e, e["op"], old, 1, ty=kids(e)[0].get("ty") or e.get("ty"))
+            self.store(key, new)
+            return old if e.get("postfix") else new
+        r = super().ev(e)
+        if k == "UnaryOperator" and e.get("op") in ("-", "~") and isinstance(r, int) and not isinstance(r, bool):
+            r = self._fit(r, e, "neg" if e["op"] == "-" else "~", r, None)
+        return r
+
+    def arith(self, op, a, b, e):
+        if a is None or b is None:
+            return None
+        if not numeric(a) or not numeric(b):
+            return super().arith(op, a, b, e)
+        # a compound assignment computes in its computation type and converts the result to the type of its left side
+        cty = e.get("cty") if e["k"] == "CompoundAssignOperator" else None
+        if cty:
+            a = self.conv(a, cty)
+        r = self._arith(op, int(a) if isinstance(a, bool) else a, int(b) if isinstance(b, bool) else b, e, bare(cty or e.get("ty")))
+        if cty and numeric(r):
+            r = self.conv(r, e.get("ty"))
+        return r
+
+    def _arith(self, op, a, b, e, ty):
+        if op in ("<", "<=", ">", ">=", "==", "!="):
+            return {"<": a < b, "<=": a <= b, ">": a > b, ">=": a >= b, "==": a == b, "!=": a != b}[op]
+        if op in ("/", "%"):
+            if b == 0:
+                self.log.append(("div0", e, op, a, b, None))
+                return None
+            if ty in FTY or isinstance(a, Fraction) or isinstance(b, Fraction):
+                return Fraction(a) / Fraction(b) if op == "/" else None
+            q = abs(a) // abs(b) * (1 if (a >= 0) == (b >= 0) else -1)
+            return self._fit(q if op == "/" else a - q * b, e, op, a, b, ty=ty)
+        if op in ("<<", ">>", "&", "|", "^"):
+            if not isinstance(a, int) or not isinstance(b, int):
+                return None
+            if op in ("<<", ">>"):
+                w = iwidth(ty)
+                if w is None:
+                    return None
+                if b < 0 or b >= max(w, 32):
+                    self.log.append(("shift", e, op, a, b, None))
+                    return None
+                return self._fit(a << b if op == "<<" else a >> b, e, op, a, b, ty=ty)
+            return self._fit({"&": a & b, "|": a | b, "^": a ^ b}[op], e, op, a, b, ty=ty)
+        if op in ("+", "-", "*"):
+            return self._fit({"+": a + b, "-": a - b, "*": a * b}[op], e, op, a, b, ty=ty)
+        return None
+
+    VALUE_CASTS = ("IntegralCast", "IntegralToFloating", "FloatingToIntegral", "IntegralToBoolean", "FloatingCast", "FloatingToBoolean",
+                   "BooleanToSignedIntegral")
+
+    def lvalue(self, e):
+        # a value conversion yields a temporary, not the object underneath (a const reference bound to it sees the converted value)
+        if e is not None and e["k"] in NUMCASTS and e.get("cast") in self.VALUE_CASTS and bare(e.get("from")) != bare(e.get("ty")):
+            return None
+        if this_field(e):
+            return ("field", this_field(e))          # also (*this).f, which the shared matcher does not take for a field of this
+        return super().lvalue(e)
+
+    def store(self, key, v):
+        if key is not None:
+            self.written.add(key)
+        else:
+            self.log.append(("lostwrite", self.cur, None, None, None, None))      # a write to something the skeleton does not model
+        super().store(key, v)
+
+    def inline(self, e, args):
+        r = super().inline(e, args)
+        if r is NotImplemented:
+            # a call that is not followed may write through every non-const lvalue it receives: those objects are unknown now
+            for a in args:
+                if a is not None and a.get("lv") and not (a.get("ty") or "").startswith("const "):
+                    key = self.lvalue(a)
+                    if key is not None:
+                        self.env[key] = None
+        return r
+
+    def stmt(self, s):
+        if s is not None and self.depth == 0 and self.fn is self.top and s["k"] != "CompoundStmt":
+            self.cur = s
+        if s is not None and s["k"] in ("GCCAsmStmt", "MSAsmStmt", "AsmStmt"):
+            raise dtable.Undecidable("%s: inline assembly at line %s" % (self.fn.full, s.get("l")))
+        super().stmt(s)
+
+
+def cxx_run(tu, fn, env, event=None, raw=None):
+    """-> (return value or None, skeleton)"""
+    sk = CSkel(fn, env, None, event, tu=tu)
+    sk.raw = raw
+    try:
+        sk.run(kids(fn.body))
+        ret = None
+    except skel.Return as r_:
+        ret = r_.v
+    except skel.Diverges as d_:
+        raise dtable.Undecidable("%s: a loop of the skeleton does not end (line %s)" % (fn.loc, (d_.loop or {}).get("l")))
+    lost = [x for x in sk.log if x[0] == "lostwrite"]
+    if lost:
+        # closed world: every write must land in the model, otherwise later values are not the program's values
+        raise dtable.Undecidable("%s: %s writes to an object the evaluation does not model" % (fn.loc, dtable.describe(lost[0][1])[:70]))
+    return ret, sk
+
+
+def ub_text(x):
+    kind, e = x[0], x[1]
+    if kind == "builtin0":
+        return "%s is reached with operand 0, for which it is undefined" % x[2]
+    if kind == "overflow":
+        return "%s overflows its signed type (%s, %s)" % (dtable.describe(e), x[3], x[4])
+    if kind == "shift":
+        return "%s shifts by %s" % (dtable.describe(e), x[4])
+    if kind == "div0":
+        return "%s divides by zero" % dtable.describe(e)
+    return "%s wraps" % dtable.describe(e)
+
+
+# ---------------------------------------------------------------- bit-count families
+def builtin_parts(name):
+    """(base, suffix) of a bit-count intrinsic, None for any other __builtin_"""
+    base = name.rstrip("l")
+    suf = name[len(base):]
+    if base in BUILTIN_BASES and suf in BUILTIN_W:
+        return base, suf
+    return None
+
+
+def builtin_event(e, sk):
+    """model of the gcc/clang bit-count intrinsics on their own operand width"""
+    if e["k"] == "CallExpr" and "callee" in e and e["callee"]["name"].startswith("__builtin_"):
+        bp = builtin_parts(e["callee"]["name"])
+        if bp is None or len(kids(e)) != 1:
+            return None
+        v = sk.ev(kids(e)[0])
+        if not isinstance(v, int):
+            return None
+        w = BUILTIN_W[bp[1]]
+        u = int(v) % (1 << w)
+        if bp[0] in ("__builtin_clz", "__builtin_ctz") and u == 0:
+            sk.log.append(("builtin0", e, e["callee"]["name"], v, None, None))
+            return None
+        if bp[0] == "__builtin_clz":
+            return w - u.bit_length()
+        if bp[0] == "__builtin_ctz":
+            return (u & -u).bit_length() - 1
+        if bp[0] == "__builtin_ffs":
+            return 0 if u == 0 else (u & -u).bit_length()
+        return bin(u).count("1")
+    return NotImplemented
+
+
+def family_samples(t):
+    lo, hi = ITY[t]
+    vs = {0, 1, 2, 3, 5, 6, 8, 12, 255, 256, 65535, 65536, 2 ** 31 - 1, 2 ** 31, 2 ** 31 + 1, 2 ** 32 - 1, 2 ** 32, 2 ** 32 + 2, 2 ** 40, 2 ** 40 + 8,
+          3 << 45, hi, hi - 1, (hi + 1) // 2, -1, -2, -8, lo, lo + 1, -2 ** 31, -2 ** 31 - 1, -2 ** 40}
+    return sorted(v for v in vs if lo <= v <= hi)
+
+
+def family_ref(fam, v, t):
+    """the mathematical definition on the two's complement representation; None: no reference for this point"""
+    w = WIDTH[t]
+    u = v % (1 << w)
+    if fam == "clz":
+        return w - u.bit_length()
+    if fam == "ctz":
+        return w if u == 0 else (u & -u).bit_length() - 1
+    if fam == "ffs":
+        return 0 if u == 0 else (u & -u).bit_length()
+    if fam == "popcount":
+        return bin(u).count("1")
+    if fam == "integer_log2_floor":
+        return None if v < 0 else (0 if v == 0 else v.bit_length() - 1)
+    if fam == "is_power_of_two":
+        return int(v > 0 and (v & (v - 1)) == 0)
+    return None
+
+
+def family_deviation(tu, fn, fam, t):
+    """first sample value on which the overload deviates from the family's definition: (value, what it yields, reference) or
+    None; Undecidable if the overload cannot be evaluated"""
+    tested = 0
+    for v in family_samples(t):
+        want = family_ref(fam, v, t)
+        if want is None:
+            continue
+        ret, sk = cxx_run(tu, fn, {fn.params[0]["did"]: v}, builtin_event)
+        tested += 1
+        ub = [x for x in sk.log if x[0] in ("builtin0", "overflow", "shift", "div0")]
+        if ub:
+            return v, "undefined: " + ub_text(ub[0]), want
+        if not numeric(ret):
+            raise dtable.Undecidable("%s: %s(%d) [%s] cannot be evaluated on the integer skeleton" % (fn.loc, fam, v, t))
+        if int(ret) != want:
+            return v, int(ret), want
+    if not tested:
+        raise dtable.Undecidable("%s: no reference semantics for %s to judge an unusual implementation" % (fn.loc, fam))
+    return None
+
+
+def check_family(ck, tu, fam):
+    allf = tu.find(qname="tlx::" + fam)
+    fns = [f for f in allf if len(f.params) == 1]
+    have = sorted(set(ptype(f) for f in fns))
+    miss = [t for t in INTS if t not in have]
+    if miss:
+        # closed world: every definition named tlx::<fam> is in the IR; a definition with another arity may still serve the type
+        odd = [f for f in allf if len(f.params) != 1 and f.params and ptype(f) in miss]
+        if odd:
+            raise dtable.Undecidable("%s: %s for %s has %d parameters, not understood" % (odd[0].loc, fam, ptype(odd[0]), len(odd[0].params)))
+        ck.violation("FAMILY-COMPLETE", "tlx::" + fam, fam, "no overload / specialisation of %s for %s" % (fam, miss), "tlx/math")
+    else:
+        ck.ok("FAMILY-COMPLETE", fam, "defined for all six integer types", nontrivial=False)
+    for fn in fns:
+        t = ptype(fn)
+        if t not in WIDTH:
+            continue
+        ck.guarded(lambda fn=fn, t=t: check_overload(ck, tu, fam, fn, t))
+
+
+def check_overload(ck, tu, fam, fn, t):
+    tag = "%s(%s)" % (fam, t)
+    calls = [x for x in fn.nodes() if "callee" in x and x["k"] == "CallExpr"]
+    builtins = [c for c in calls if c["callee"]["name"].startswith("__builtin_")]
+    fwd = [c for c in calls if c["callee"]["qname"] == "tlx::" + fam]
+    memo = {}
+
+    def deviation():
+        if "d" not in memo:
+            memo["d"] = family_deviation(tu, fn, fam, t)
+        return memo["d"]
+
+    def shown(d):
+        return "%s(%d) yields %s, must be %s" % (fam, d[0], d[1], d[2])
+    for b in builtins:
+        name = b["callee"]["name"]
+        bp = builtin_parts(name)
+        if bp is None:
+            raise dtable.Undecidable("%s: intrinsic %s is not modelled" % (fn.nloc(b), name))
+        base, suf = bp
+        # width: the suffix names the operand width.  Another width is only a suspicion (a wider intrinsic on a zero-extended
+        # operand, two half-width calls, ... can be right): the overload is evaluated against the family's definition
+        szs = [y for y in fn.nodes() if y["k"] == "UnaryExprOrTypeTraitExpr"]
+        bad_sz = [y for y in szs if const_int(y) is not None and const_int(y) * 8 != WIDTH[t]]
+        if BUILTIN_W[suf] != WIDTH[t]:
+            d = deviation()
+            if d:
+                ck.violation("INTRINSIC-WIDTH", fn.qname, tag, "%s (%d-bit operand) is used for %s (%d bits): %s"
+                             % (name, BUILTIN_W[suf], t, WIDTH[t], shown(d)), fn.nloc(b))
+            else:
+                ck.ok("INTRINSIC-WIDTH", tag, "%s on a %d-bit operand, equal to %s on every sample value" % (name, BUILTIN_W[suf], fam))
+        elif bad_sz:
+            d = deviation()
+            if d:
+                ck.violation("INTRINSIC-WIDTH", fn.qname, tag + ":sizeof", "sizeof(%s) does not name the %d-bit parameter type: %s"
+                             % (bad_sz[0].get("argty"), WIDTH[t], shown(d)), fn.nloc(bad_sz[0]))
+            else:
+                ck.ok("INTRINSIC-WIDTH", tag, "%s on a %d-bit operand, equal to %s on every sample value" % (name, WIDTH[t], fam))
+        else:
+            ck.ok("INTRINSIC-WIDTH", tag, "%s on a %d-bit operand" % (name, WIDTH[t]), nontrivial=False)
+        # zero guard for clz/ctz (undefined for 0)
+        if base in ("__builtin_clz", "__builtin_ctz"):
+            g = cfgm.CFG(fn)
+            guarded = False
+            for y in fn.nodes():
+                if y["k"] == "IfStmt":
+                    c = match.binop(kids(y)[0], ("==",))
+                    if c and ref_of(c[1]) == fn.params[0]["did"] and const_int(c[2]) == 0 and \
+                            any(z["k"] == "ReturnStmt" for z in ir.walk(kids(y)[1])):
+                        pc, pb = g.pos_deep(kids(y)[0]), g.pos_deep(b)
+                        if pc is not None and pb is not None and g.dominates(pc, pb):
+                            guarded = True
+            # the overload is evaluated for the argument 0 (any spelling of the guard: x != 0 ? .. : .., !x, 0 == x, x | 1, a
+            # helper ...); the dominating zero test decides only where the evaluation is not possible
+            try:
+                ret, sk = cxx_run(tu, fn, {fn.params[0]["did"]: 0}, builtin_event)
+                hit = [x for x in sk.log if x[0] == "builtin0" and x[2] == name]
+                evaluated = bool(hit) or numeric(ret)
+            except dtable.Undecidable:
+                hit, evaluated = [], False
+            if hit:
+                ck.violation("INTRINSIC-GUARD", fn.qname, tag, "%s is undefined for 0 but is reached without a zero test "
+                             "(evaluated for the argument 0: operand %s)" % (name, hit[0][3]), fn.nloc(b))
+            elif guarded:
+                ck.ok("INTRINSIC-GUARD", tag, "%s is dominated by the zero test" % name)
+            elif evaluated:
+                ck.ok("INTRINSIC-GUARD", tag, "%s is not reached with operand 0 when the argument is 0 (evaluated)" % name)
+            else:
+                raise dtable.Undecidable("%s: %s(0) cannot be evaluated: is %s guarded against 0?" % (fn.loc, fam, name))
+    if fwd and not builtins and fam not in ("integer_log2_ceil",):
+        # forwarding overload: argument is the parameter cast to the same-width counterpart
+        a = kids(fwd[0])[0] if kids(fwd[0]) else None
+        to = bare(a.get("ty")) if a is not None else ""
+        inner = strip_casts(a)
+        if a is not None and ref_of(inner) == fn.params[0]["did"] and WIDTH.get(to) == WIDTH[t] and to != t:
+            ck.ok("SIGNED-FORWARD", tag, "forwards to the %s overload of the same width" % to, nontrivial=False)
+        else:
+            # a local copy, another argument expression, another width: decided by what the overload computes
+            d = deviation()
+            if d:
+                ck.violation("SIGNED-FORWARD", fn.qname, tag, "forwards to %s(%s): not the same-width counterpart of %s: %s"
+                             % (fam, to, t, shown(d)), fn.nloc(fwd[0]))
+            else:
+                ck.ok("SIGNED-FORWARD", tag, "forwards to %s(%s), equal to %s on every sample value" % (fam, to, fam))
 
 
 def check_families(ck, tu):
     for fam in FAMILIES:
-        fns = [f for f in tu.find(qname="tlx::" + fam) if len(f.params) == 1]
-        have = sorted(set(ptype(f) for f in fns))
-        miss = [t for t in INTS if t not in have]
-        if miss:
-            ck.violation("FAMILY-COMPLETE", "tlx::" + fam, fam, "no overload / specialisation of %s for %s" % (fam, miss), "tlx/math")
-        else:
-            ck.ok("FAMILY-COMPLETE", fam, "defined for all six integer types", nontrivial=False)
-        for fn in fns:
-            t = ptype(fn)
-            if t not in WIDTH:
-                continue
-            tag = "%s(%s)" % (fam, t)
-            calls = [x for x in fn.nodes() if "callee" in x and x["k"] == "CallExpr"]
-            builtins = [c for c in calls if c["callee"]["name"].startswith("__builtin_")]
-            fwd = [c for c in calls if c["callee"]["qname"] == "tlx::" + fam]
-            for b in builtins:
-                name = b["callee"]["name"]
-                base = name.rstrip("l")
-                suf = name[len(base):]
-                # width
-                if BUILTIN_W[suf] != WIDTH[t]:
-                    ck.violation("INTRINSIC-WIDTH", fn.qname, tag, "%s (%d-bit operand) is used for %s (%d bits)" % (name, BUILTIN_W[suf], t, WIDTH[t]), fn.nloc(b))
-                else:
-                    szs = [y for y in fn.nodes() if y["k"] == "UnaryExprOrTypeTraitExpr"]
-                    bad_sz = [y for y in szs if const_int(y) is not None and const_int(y) * 8 != WIDTH[t]]
-                    if bad_sz:
-                        ck.violation("INTRINSIC-WIDTH", fn.qname, tag + ":sizeof", "sizeof(%s) does not name the %d-bit parameter type" % (bad_sz[0].get("argty"), WIDTH[t]), fn.nloc(bad_sz[0]))
-                    else:
-                        ck.ok("INTRINSIC-WIDTH", tag, "%s on a %d-bit operand" % (name, WIDTH[t]), nontrivial=False)
-                # zero guard for clz/ctz (undefined for 0)
-                if base in ("__builtin_clz", "__builtin_ctz"):
-                    g = cfgm.CFG(fn)
-                    guarded = False
-                    for y in fn.nodes():
-                        if y["k"] == "IfStmt":
-                            c = match.binop(kids(y)[0], ("==",))
-                            if c and ref_of(c[1]) == fn.params[0]["did"] and const_int(c[2]) == 0 and \
-                                    any(z["k"] == "ReturnStmt" for z in ir.walk(kids(y)[1])) and g.dominates(g.pos_deep(kids(y)[0]), g.pos(b)):
-                                guarded = True
-                    if guarded:
-                        ck.ok("INTRINSIC-GUARD", tag, "%s is dominated by the zero test" % name)
-                    else:
-                        ck.violation("INTRINSIC-GUARD", fn.qname, tag, "%s is undefined for 0 but is reached without a zero test" % name, fn.nloc(b))
-            if fwd and not builtins and fam not in ("integer_log2_ceil",):
-                # forwarding overload: argument is the parameter cast to the same-width counterpart
-                a = kids(fwd[0])[0]
-                to = (a.get("ty") or "").replace("const ", "")
-                inner = strip_casts(a)
-                if ref_of(inner) == fn.params[0]["did"] and WIDTH.get(to) == WIDTH[t] and to != t:
-                    ck.ok("SIGNED-FORWARD", tag, "forwards to the %s overload of the same width" % to, nontrivial=False)
-                else:
-                    ck.violation("SIGNED-FORWARD", fn.qname, tag, "forwards to %s(%s): not the same-width counterpart of %s" % (fam, to, t), fn.nloc(fwd[0]))
+        ck.guarded(lambda fam=fam: check_family(ck, tu, fam))
 
 
 # ---------------------------------------------------------------- bit provenance
@@ -79,393 +458,686 @@ class ShiftUB(Exception):
     pass
 
 
-def bits_eval(e, env, width):
-    """evaluate a bitwise expression on vectors of symbolic bits: list[width] of ('x', j) | 0 | 1"""
-    e0 = e
-    e = strip_casts(e)
-    c = const_int(e)
-    if c is not None and e["k"] in ("IntegerLiteral",):
-        return [(c >> i) & 1 for i in range(width)]
-    if e["k"] == "DeclRefExpr" and e["ref"]["id"] in env:
-        v = env[e["ref"]["id"]]
-        if v is None:
+class Bits:
+    """symbolic evaluation of straight-line shift/mask code on vectors of 64 bits, each 0, 1, ('x', j) = input bit j or the
+    disjunction of several input bits.
+    Every value is kept normalised to its C++ type (truncated, then zero- or sign-extended), shifts are checked against the
+    width of their promoted left operand, arithmetic is done on constants only.  None = not understood."""
+    W = 64
+
+    def __init__(self, tu):
+        self.tu = tu
+        self.depth = 0
+
+    def const(self, c):
+        return [(c >> i) & 1 for i in range(self.W)]
+
+    def fit(self, v, ty):
+        r = irange(ty)
+        if v is None or r is None:
+            return v
+        w = (r[1] - r[0]).bit_length()
+        if w >= self.W:
+            return list(v)
+        ext = v[w - 1] if r[0] < 0 else 0
+        return list(v[:w]) + [ext] * (self.W - w)
+
+    def as_int(self, v, ty=None):
+        if v is None or any(b not in (0, 1) for b in v):
             return None
-        if isinstance(v, int):
-            return [(v >> i) & 1 for i in range(width)]
-        return list(v)
-    b = match.binop(e, ("&", "|", "<<", ">>", "-", "^"))
-    if b and e["k"] == "BinaryOperator":
-        op, l, r = b
-        if op in ("<<", ">>"):
-            lv = bits_eval(l, env, width)
-            rv = int_eval(r, env)
-            if rv is None or lv is None:
+        n = sum(b << i for i, b in enumerate(v))
+        r = irange(ty)
+        if (r is None or r[0] < 0) and n >= 1 << (self.W - 1):
+            n -= 1 << self.W
+        return n
+
+    # a bit is 0, 1, ('x', j) or ('or', frozenset of input bits): the disjunction of positive literals is a canonical form,
+    # it equals a single input bit only if the set is that bit; every other mixture of different input bits is None
+    @staticmethod
+    def _and(x, y):
+        return 0 if x == 0 or y == 0 else (y if x == 1 else x if y == 1 else (x if x == y else None))
+
+    @staticmethod
+    def _or(x, y):
+        if x == 1 or y == 1:
+            return 1
+        if x == 0:
+            return y
+        if y == 0 or x == y:
+            return x
+        sx = x[1] if x[0] == "or" else frozenset([x])
+        sy = y[1] if y[0] == "or" else frozenset([y])
+        return ("or", sx | sy)
+
+    @staticmethod
+    def _xor(x, y):
+        if x in (0, 1) and y in (0, 1):
+            return x ^ y
+        return y if x == 0 else x if y == 0 else (0 if x == y else None)
+
+    def ev(self, e, env):
+        if e is None:
+            return None
+        k = e["k"]
+        if k == "DeclRefExpr" and e["ref"]["id"] in env:
+            v = env[e["ref"]["id"]]
+            return None if v is None else list(v)
+        if k == "IntegerLiteral" or "cval" in e or k == "CXXBoolLiteralExpr":
+            c = const_int(e)
+            return None if c is None else self.fit(self.const(c), e.get("ty"))
+        if k in NUMCASTS or k in ("CXXReinterpretCastExpr", "CXXConstCastExpr"):
+            v = self.ev(kids(e)[0], env) if kids(e) else None
+            return self.fit(v, e.get("ty")) if k in NUMCASTS else v
+        if k == "DeclRefExpr":
+            v = env.get(e["ref"]["id"])
+            return None if v is None else list(v)
+        if k == "ConditionalOperator":
+            c = self.as_int(self.ev(kids(e)[0], env))
+            if c is None:
                 return None
-            if rv < 0 or rv >= width:
-                raise ShiftUB(rv)
-            if op == "<<":
-                return [0] * rv + lv[: width - rv]
-            return lv[rv:] + [0] * rv
-        lv, rv = bits_eval(l, env, width), bits_eval(r, env, width)
-        if lv is None or rv is None:
+            return self.ev(kids(e)[1] if c else kids(e)[2], env)
+        if k == "UnaryOperator" and e.get("op") in ("~", "-", "+", "!") and kids(e):
+            v = self.ev(kids(e)[0], env)
+            if v is None:
+                return None
+            if e["op"] == "+":
+                return v
+            n = self.as_int(v, kids(e)[0].get("ty"))
+            if n is None:
+                return None
+            return self.fit(self.const({"~": ~n, "-": -n, "!": int(not n)}[e["op"]]), e.get("ty"))
+        if k == "BinaryOperator":
+            op, l, r = e["op"], kids(e)[0], kids(e)[1]
+            lv, rv = self.ev(l, env), self.ev(r, env)
+            if lv is None or rv is None:
+                return None
+            if op in ("<<", ">>"):
+                n = self.as_int(rv, r.get("ty"))
+                w = iwidth(e.get("ty"))
+                if n is None or w is None:
+                    return None
+                if n < 0 or n >= max(w, 32):
+                    raise ShiftUB(n)
+                sign = lv[self.W - 1] if irange(e.get("ty"))[0] < 0 else 0
+                out = [0] * n + lv[: self.W - n] if op == "<<" else lv[n:] + [sign] * n
+                return self.fit(out, e.get("ty"))
+            if op in ("&", "|", "^"):
+                f = {"&": self._and, "|": self._or, "^": self._xor}[op]
+                out = [f(x, y) for x, y in zip(lv, rv)]
+                return None if None in out else self.fit(out, e.get("ty"))
+            a, b = self.as_int(lv, l.get("ty")), self.as_int(rv, r.get("ty"))
+            if a is None or b is None:
+                return None
+            if op in ("+", "-", "*"):
+                return self.fit(self.const({"+": a + b, "-": a - b, "*": a * b}[op]), e.get("ty"))
+            if op in ("/", "%") and b != 0:
+                q = abs(a) // abs(b) * (1 if (a >= 0) == (b >= 0) else -1)
+                return self.fit(self.const(q if op == "/" else a - q * b), e.get("ty"))
+            if op in ("<", "<=", ">", ">=", "==", "!="):
+                return self.const(int({"<": a < b, "<=": a <= b, ">": a > b, ">=": a >= b, "==": a == b, "!=": a != b}[op]))
             return None
-        out = []
-        for x, y in zip(lv, rv):
-            if op == "&":
-                out.append(0 if x == 0 or y == 0 else (y if x == 1 else x if y == 1 else (x if x == y else None)))
-            elif op == "|":
-                out.append(1 if x == 1 or y == 1 else (y if x == 0 else x if y == 0 else (x if x == y else None)))
+        if k == "CallExpr" and "callee" in e:
+            name = e["callee"]["name"]
+            args = [a for a in kids(e) if a is not None]
+            if name in ("__builtin_bswap16", "__builtin_bswap32", "__builtin_bswap64") and len(args) == 1:
+                n = int(name[len("__builtin_bswap"):])
+                v = self.ev(args[0], env)
+                if v is None:
+                    return None
+                out = [v[(n // 8 - 1 - i // 8) * 8 + i % 8] for i in range(n)] + [0] * (self.W - n)
+                return self.fit(out, e.get("ty"))
+            callee = self.tu.by_did.get(e["callee"].get("did"))
+            if callee is None or callee.body is None or e.get("member_call") or len(args) != len(callee.params) or self.depth >= 4:
+                return None
+            env2 = {}
+            for p, a in zip(callee.params, args):
+                v = self.ev(a, env)
+                if v is None:
+                    return None
+                env2[p["did"]] = self.fit(v, p.get("ty"))
+            self.depth += 1
+            try:
+                return self.body(callee, env2)
+            finally:
+                self.depth -= 1
+        return None
+
+    def body(self, fn, env):
+        """value returned by a function whose body is declarations, assignments to locals, concretely decided ifs and returns"""
+        env = dict(env)
+        r = self._run(kids(fn.body), env)
+        return r[1] if r else None
+
+    def _run(self, stmts, env):
+        """('ret', v) on return; () when the statements fell through; ('bad', None) when not understood"""
+        for s in stmts:
+            if s is None or s["k"] == "NullStmt":
+                continue
+            k = s["k"]
+            if k == "CompoundStmt":
+                r = self._run(kids(s), env)
+                if r:
+                    return r
+            elif k == "DeclStmt":
+                for v in kids(s):
+                    if v["k"] != "VarDecl":
+                        continue
+                    env[v["did"]] = self.fit(self.ev(kids(v)[0], env), v.get("ty")) if kids(v) else None
+            elif k == "ReturnStmt":
+                return ("ret", self.ev(kids(s)[0], env) if kids(s) else None)
+            elif k == "IfStmt":
+                c = self.as_int(self.ev(kids(s)[0], env))
+                if c is None:
+                    return ("bad", None)
+                br = kids(s)[1] if c else (kids(s)[2] if len(kids(s)) > 2 else None)
+                r = self._run([br], env)
+                if r:
+                    return r
+            elif k in ("BinaryOperator", "CompoundAssignOperator") and s["op"].endswith("=") and s["op"] not in ("==", "!=", "<=", ">=") \
+                    and strip_casts(kids(s)[0])["k"] == "DeclRefExpr":
+                d = ref_of(kids(s)[0])
+                if s["op"] == "=":
+                    env[d] = self.fit(self.ev(kids(s)[1], env), kids(s)[0].get("ty"))
+                else:
+                    fake = dict(s)
+                    fake["k"], fake["op"], fake["ty"] = "BinaryOperator", s["op"][:-1], s.get("cty") or s.get("ty")
+                    env[d] = self.fit(self.ev(fake, env), kids(s)[0].get("ty"))
             else:
-                return None
-        if None in out:
-            return None
-        return out
-    return None
-
-
-def int_eval(e, env):
-    e = strip_casts(e)
-    c = const_int(e)
-    if c is not None and e["k"] == "IntegerLiteral":
-        return c
-    if e["k"] == "DeclRefExpr" and isinstance(env.get(e["ref"]["id"]), int):
-        return env[e["ref"]["id"]]
-    b = match.binop(e, ("&", "-", "+"))
-    if b:
-        l, r = int_eval(b[1], env), int_eval(b[2], env)
-        if l is None or r is None:
-            return None
-        return {"&": l & r, "-": l - r, "+": l + r}[b[0]]
-    return None
+                return ("bad", None)
+        return ()
 
 
 def check_bits(ck, tu):
-    for w in (16, 32, 64):
-        fn = tu.one(qname="tlx::bswap%d_generic" % w)
-        e = kids([x for x in fn.nodes() if x["k"] == "ReturnStmt"][0])[0]
-        W = 64
-        x = [("x", j) if j < w else 0 for j in range(W)]
-        r = bits_eval(e, {fn.params[0]["did"]: x}, W)
+    def bswap(qn, w, label):
+        fn = tu.one(qname=qn)
+        bv = Bits(tu)
+        x = bv.fit([("x", j) for j in range(bv.W)], "unsigned long" if w == 64 else "unsigned int" if w == 32 else "unsigned short")
+        try:
+            r = bv.body(fn, {fn.params[0]["did"]: x})
+        except ShiftUB as su:
+            return fn, ("ub", su.args[0])
         want = [("x", (w // 8 - 1 - i // 8) * 8 + i % 8) for i in range(w)]
         if r is None:
             raise dtable.Undecidable("%s: not a pure shift/mask expression" % fn.loc)
         if r[:w] != want:
             badbit = [i for i in range(w) if r[i] != want[i]][0]
-            ck.violation("BIT-PROVENANCE", fn.qname, "bswap%d" % w, "result bit %d comes from %s, a byte swap needs input bit %d" % (badbit, r[badbit], want[badbit][1]), fn.loc)
+            got = r[badbit]
+            if isinstance(got, tuple) and got[0] == "or":
+                got = "the disjunction of input bits %s" % sorted(j for _, j in got[1])
+            return fn, ("bit", badbit, got, want[badbit][1])
+        return fn, None
+
+    def generic(w):
+        fn, bad = bswap("tlx::bswap%d_generic" % w, w, "bswap%d" % w)
+        if bad and bad[0] == "ub":
+            ck.violation("BIT-PROVENANCE", fn.qname, "bswap%d:shift" % w, "shifts by %s, undefined for its operand" % bad[1], fn.loc)
+        elif bad:
+            ck.violation("BIT-PROVENANCE", fn.qname, "bswap%d" % w, "result bit %d comes from %s, a byte swap needs input bit %d" % bad[1:], fn.loc)
         else:
             ck.ok("BIT-PROVENANCE", fn.qname, "all %d result bits come from the byte-mirrored input bit" % w)
+    for w in (16, 32, 64):
+        ck.guarded(lambda w=w: generic(w))
+
+    def rotate(name, left, w):
+        fn = tu.one(qname="tlx::%s%d_generic" % (name, w))
+        bad = None
+        for i in list(range(0, w)) + [w, w + 3, -1, -5]:
+            bv = Bits(tu)
+            x = bv.fit([("x", j) for j in range(bv.W)], "unsigned long" if w == 64 else "unsigned int")
+            try:
+                r = bv.body(fn, {fn.params[0]["did"]: x, fn.params[1]["did"]: bv.fit(bv.const(i), "int")})
+            except ShiftUB as su:
+                ck.violation("BIT-PROVENANCE", fn.qname, "%s%d:shift" % (name, w), "rotation by %d shifts by %s, undefined for a %d-bit operand" % (i, su.args[0], w), fn.loc)
+                return
+            if r is None:
+                raise dtable.Undecidable("%s: not a pure shift/mask expression (i=%d)" % (fn.loc, i))
+            k = i % w
+            want = [("x", (j - k) % w) for j in range(w)] if left else [("x", (j + k) % w) for j in range(w)]
+            if r[:w] != want:
+                bad = i
+                break
+        if bad is not None:
+            ck.violation("BIT-PROVENANCE", fn.qname, "%s%d" % (name, w), "rotation by %d is wrong (bit provenance differs from a %d-bit rotate)" % (bad, w), fn.loc)
+        else:
+            ck.ok("BIT-PROVENANCE", fn.qname, "rotate %s correct for every amount 0..%d (and wrap-around amounts), all bits" % ("left" if left else "right", w - 1))
     for name, left in (("rol", True), ("ror", False)):
         for w in (32, 64):
-            fn = tu.one(qname="tlx::%s%d_generic" % (name, w))
-            e = kids([x for x in fn.nodes() if x["k"] == "ReturnStmt"][0])[0]
-            bad = None
-            for i in list(range(0, w)) + [w, w + 3, -1, -5]:
-                x = [("x", j) for j in range(w)]
-                try:
-                    r = bits_eval(e, {fn.params[0]["did"]: x, fn.params[1]["did"]: i}, w)
-                except ShiftUB as su:
-                    ck.violation("BIT-PROVENANCE", fn.qname, "%s%d:shift" % (name, w), "rotation by %d shifts by %s, undefined for a %d-bit operand" % (i, su.args[0], w), fn.loc)
-                    bad = "ub"
-                    break
-                if r is None:
-                    raise dtable.Undecidable("%s: not a pure shift/mask expression (i=%d)" % (fn.loc, i))
-                k = i % w
-                want = [("x", (j - k) % w) for j in range(w)] if left else [("x", (j + k) % w) for j in range(w)]
-                if r != want:
-                    bad = i
-                    break
-            if bad == "ub":
-                continue
-            if bad is not None:
-                ck.violation("BIT-PROVENANCE", fn.qname, "%s%d" % (name, w), "rotation by %d is wrong (bit provenance differs from a %d-bit rotate)" % (bad, w), fn.loc)
-            else:
-                ck.ok("BIT-PROVENANCE", fn.qname, "rotate %s correct for every amount 0..%d (and wrap-around amounts), all bits" % ("left" if left else "right", w - 1))
-    # intrinsic front ends use the intrinsic of their own width
-    for w in (16, 32, 64):
+            ck.guarded(lambda name=name, left=left, w=w: rotate(name, left, w))
+
+    # intrinsic front ends use the intrinsic of their own width: decided by the provenance of the result bits, the intrinsic
+    # __builtin_bswapN mirroring the low N bits of its operand
+    def front(w):
         fn = tu.one(qname="tlx::bswap%d" % w)
         b = [x for x in fn.nodes() if "callee" in x and x["callee"]["name"].startswith("__builtin_bswap")]
-        if len(b) == 1 and b[0]["callee"]["name"] == "__builtin_bswap%d" % w:
+        if len(b) == 1 and b[0]["callee"]["name"] == "__builtin_bswap%d" % w and ref_of(kids(b[0])[0]) == fn.params[0]["did"]:
             ck.ok("INTRINSIC-WIDTH", "bswap%d" % w, b[0]["callee"]["name"], nontrivial=False)
+            return
+        fn, bad = bswap("tlx::bswap%d" % w, w, "bswap%d" % w)
+        if bad and bad[0] == "ub":
+            ck.violation("INTRINSIC-WIDTH", fn.qname, "bswap%d" % w, "bswap%d shifts by %s, undefined for its operand" % (w, bad[1]), fn.loc)
+        elif bad:
+            ck.violation("INTRINSIC-WIDTH", fn.qname, "bswap%d" % w, "bswap%d does not use __builtin_bswap%d: result bit %d comes from %s, a byte swap needs input bit %d"
+                         % ((w, w) + bad[1:]), fn.loc)
         else:
-            ck.violation("INTRINSIC-WIDTH", fn.qname, "bswap%d" % w, "bswap%d does not use __builtin_bswap%d" % (w, w), fn.loc)
+            ck.ok("INTRINSIC-WIDTH", "bswap%d" % w, "all %d result bits come from the byte-mirrored input bit" % w)
+    for w in (16, 32, 64):
+        ck.guarded(lambda w=w: front(w))
 
 
 # ---------------------------------------------------------------- overflow before narrowing
+def overflow_ref(q, vals, hi):
+    """mathematical result on the natural domain (non-negative arguments, positive divisor); None outside / not representable"""
+    if q == "tlx::round_down_to_power_of_two":
+        i = vals[0]
+        r = None if i < 0 else (0 if i == 0 else 1 << (i.bit_length() - 1))
+    else:
+        n, k = vals
+        if n < 0 or k <= 0:
+            return None
+        r = -(-n // k)
+        if q == "tlx::round_up":
+            r *= k
+    return r if r is not None and r <= hi else None
+
+
+def overflow_grid(q, fn, hi):
+    consts = set(c for c in (const_int(y) for y in fn.nodes() if y["k"] == "IntegerLiteral") if c is not None and 0 < c < 1024) | {1, 2}
+    near = set()
+    for c in consts:
+        near |= {hi - c, hi - c + 1}
+    big = sorted(v for v in near | {hi, hi - 1, (hi + 1) // 2, (hi + 1) // 2 + 1, (hi + 1) // 2 - 1} if 0 <= v <= hi)
+    small = [0, 1, 2, 3, 4, 5, 7, 8, 9, 12, 16, 17, 1000]
+    if q == "tlx::round_down_to_power_of_two":
+        return [(v,) for v in small + big]
+    ks = [1, 2, 3, 7, 8, hi - 1, hi]
+    return [(n, k) for n in small + big for k in ks]
+
+
 def check_overflow(ck, tu):
     """a total helper must not add to a full-range parameter before dividing / shifting / rounding down:
-    n + k - 1 or i + 1 wraps for the upper part of the domain although the result is representable"""
+    n + k - 1 or i + 1 wraps for the upper part of the domain although the result is representable.
+    Decided by evaluating the helper (callees included) with C++ integer semantics at the extremes of its type and on small
+    values: a violation is an addition that wrapped / overflowed on a point whose mathematical result is representable, and
+    a result that differs from it.  The syntactic form `param + positive` is only the suspicion."""
+    def one(q, fn):
+        pids = [p["did"] for p in fn.params]
+        types = [ptype(fn, i) for i in range(len(fn.params))]
+        tag = "%s(%s)" % (q.split("::")[-1], ",".join(types))
+        suspects = []
+        for x in fn.nodes():
+            b = match.binop(x, ("+",))
+            if not b or strip_casts(x)["k"] != "BinaryOperator":
+                continue
+            ops = [b[1], b[2]]
+            raw = [o for o in ops if ref_of(o) in pids and strip_casts(o)["k"] == "DeclRefExpr"]
+            if not raw:
+                continue
+            other = [o for o in ops if o is not raw[0]][0]
+            if (const_int(other) or 0) > 0 or ref_of(other) in pids:
+                suspects.append(x)
+        evidence = None
+        cannot = None
+        points = 0
+        if all(t in ITY for t in types) and len(set(types)) == 1:
+            lo, hi = ITY[types[0]]
+            try:
+                for vals in overflow_grid(q, fn, hi):
+                    want = overflow_ref(q, vals, hi)
+                    if want is None:
+                        continue
+                    ret, sk = cxx_run(tu, fn, dict(zip(pids, vals)), builtin_event)
+                    points += 1
+                    adds = [x for x in sk.log if x[0] in ("overflow", "wrap") and x[2] in ("+", "++")]
+                    ub = [x for x in sk.log if x[0] in ("overflow", "shift", "div0", "builtin0")]
+                    if not numeric(ret) and not ub:
+                        raise dtable.Undecidable("%s: %s%s cannot be evaluated on the integer skeleton" % (fn.loc, q.split("::")[-1], vals))
+                    if adds and (ub or int(ret) != want):
+                        got = ("undefined: " + ub_text(ub[0])) if ub else int(ret)
+                        evidence = (adds[0][1], vals, got, want)
+                        break
+            except dtable.Undecidable as u:
+                cannot = u
+        else:
+            cannot = dtable.Undecidable("%s: parameter types %s not modelled" % (fn.loc, types))
+        if evidence is not None:
+            wrapped, vals, got, want = evidence
+            own = set(y["id"] for y in fn.nodes())
+            bad = wrapped if wrapped["id"] in own or not suspects else suspects[0]
+            ck.violation("NO-OVERFLOW-BEFORE-NARROW", fn.qname, tag.replace(" ", "_"),
+                         "%s is computed on the raw argument before the result is narrowed: it wraps for arguments near the type's maximum although the "
+                         "mathematical result is representable (for %s %s wraps and the helper yields %s, must be %s)"
+                         % (dtable.describe(bad), ", ".join(str(v) for v in vals), dtable.describe(wrapped), got, want), fn.nloc(bad))
+        elif cannot is not None and suspects:
+            raise dtable.Undecidable("%s: %s adds to the raw argument and the helper cannot be evaluated to see whether it wraps (%s)"
+                                     % (fn.nloc(suspects[0]), dtable.describe(suspects[0]), cannot))
+        elif cannot is not None:
+            ck.ok("NO-OVERFLOW-BEFORE-NARROW", tag, "no widening addition on the raw argument")
+        else:
+            ck.ok("NO-OVERFLOW-BEFORE-NARROW", tag, "no addition wraps or overflows on %d points incl. the type's maximum" % points)
     for q in ("tlx::div_ceil", "tlx::round_up", "tlx::round_down_to_power_of_two"):
         for fn in tu.some(qname=q):
-            pids = [p["did"] for p in fn.params]
-            bad = None
-            for x in fn.nodes():
-                b = match.binop(x, ("+",))
-                if not b or strip_casts(x)["k"] != "BinaryOperator":
-                    continue
-                ops = [b[1], b[2]]
-                raw = [o for o in ops if ref_of(o) in pids and strip_casts(o)["k"] == "DeclRefExpr"]
-                if not raw:
-                    continue
-                other = [o for o in ops if o is not raw[0]][0]
-                growing = (const_int(other) or 0) > 0 or ref_of(other) in pids
-                if growing:
-                    # guarded by an explicit range test on that parameter?
-                    bad = x
-            tag = "%s(%s)" % (q.split("::")[-1], ",".join(ptype(fn, i) for i in range(len(fn.params))))
-            if bad is not None:
-                ck.violation("NO-OVERFLOW-BEFORE-NARROW", fn.qname, tag.replace(" ", "_"),
-                             "%s is computed on the raw argument before the result is narrowed: it wraps for arguments near the type's maximum although the "
-                             "mathematical result is representable" % dtable.describe(bad), fn.nloc(bad))
-            else:
-                ck.ok("NO-OVERFLOW-BEFORE-NARROW", tag, "no widening addition on the raw argument")
+            ck.guarded(lambda q=q, fn=fn: one(q, fn))
 
 
 def check_bool_total(ck, tu):
     """BOOL-TOTAL: is_power_of_two_template is evaluated on its integer skeleton for the extreme and the small values of
     each instantiated type: the result is (i > 0 and i has one bit set) and no signed subtraction / addition leaves the
     type's range on the way (i - 1 for the minimum)"""
-    from engine import skel
-    RANGES = {"int": (-2 ** 31, 2 ** 31 - 1), "long": (-2 ** 63, 2 ** 63 - 1), "long long": (-2 ** 63, 2 ** 63 - 1), "short": (-2 ** 15, 2 ** 15 - 1),
-              "unsigned int": (0, 2 ** 32 - 1), "unsigned long": (0, 2 ** 64 - 1), "unsigned long long": (0, 2 ** 64 - 1)}
-    for fn in tu.some(qname="tlx::is_power_of_two_template"):
+    def one(fn):
         t = ptype(fn)
-        if t not in RANGES:
+        if t not in ITY:
             raise dtable.Undecidable("%s: integer type %s not modelled" % (fn.loc, t))
-        lo, hi = RANGES[t]
-        signed = lo < 0
+        lo, hi = ITY[t]
         bad = None
         vals = sorted(set([lo, lo + 1, -8, -2, -1, 0, 1, 2, 3, 4, 5, 6, 7, 8, 12, 16, 2 ** 30, hi - 1, hi, (hi + 1) // 2]))
         vals = [v for v in vals if lo <= v <= hi]
         for v in vals:
-            over = []
-
-            def event(e, sk):
-                if e["k"] == "BinaryOperator" and e.get("op") in ("-", "+", "*") and signed:
-                    a_, b_ = sk.ev(kids(e)[0]), sk.ev(kids(e)[1])
-                    if isinstance(a_, int) and isinstance(b_, int):
-                        r_ = {"-": a_ - b_, "+": a_ + b_, "*": a_ * b_}[e["op"]]
-                        if not (lo <= r_ <= hi) and (e.get("ty") or t) in (t, "const " + t):
-                            over.append((e, a_, b_))
-                        return r_
-                if e["k"] == "BinaryOperator" and e.get("op") in ("-", "+") and not signed:
-                    a_, b_ = sk.ev(kids(e)[0]), sk.ev(kids(e)[1])
-                    if isinstance(a_, int) and isinstance(b_, int):
-                        return ({"-": a_ - b_, "+": a_ + b_}[e["op"]]) % (hi + 1)
-                return NotImplemented
-            sk = skel.Skel(fn, {fn.params[0]["did"]: v}, None, event)
-            try:
-                sk.run(kids(fn.body))
-                ret = None
-            except skel.Return as r_:
-                ret = r_.v
+            ret, sk = cxx_run(tu, fn, {fn.params[0]["did"]: v}, builtin_event)
+            over = [x for x in sk.log if x[0] == "overflow"]
+            other_ub = [x for x in sk.log if x[0] in ("shift", "div0", "builtin0")]
             want = v > 0 and (v & (v - 1)) == 0
-            if over and bad is None:
-                e, a_, b_ = over[0]
+            if over:
+                e = over[0][1]
                 bad = ("overflow", "%s is evaluated for i = %d (%s): signed overflow for the minimum, for which the predicate must simply be false"
                        % (dtable.describe(e), v, t), e)
-            elif (ret is None or bool(ret) != want) and bad is None:
-                bad = ("form", "is_power_of_two(%d) [%s] yields %s, must be %s" % (v, t, ret, want), fn.body)
+                break
+            if other_ub:
+                bad = ("form", "is_power_of_two(%d) [%s] is undefined: %s" % (v, t, ub_text(other_ub[0])), other_ub[0][1])
+                break
+            if not isinstance(ret, (int, bool)):
+                raise dtable.Undecidable("%s: is_power_of_two(%d) [%s] cannot be evaluated on the integer skeleton" % (fn.loc, v, t))
+            if bool(ret) != want:
+                bad = ("form", "is_power_of_two(%d) [%s] yields %s, must be %s" % (v, t, bool(ret), want), fn.body)
+                break
         if bad:
             ck.violation("BOOL-TOTAL", fn.qname, t.replace(" ", "_") + (":form" if bad[0] == "form" else ""), bad[1], fn.nloc(bad[2]))
         else:
             ck.ok("BOOL-TOTAL", "is_power_of_two_template<%s>" % t, "%d values incl. the type's minimum and maximum: result == (i > 0 and one bit set), no signed overflow on the way" % len(vals))
+    for fn in tu.some(qname="tlx::is_power_of_two_template"):
+        ck.guarded(lambda fn=fn: one(fn))
 
 
 # ---------------------------------------------------------------- Aggregate
-def frac_eval(e, env):
-    """exact evaluation of an arithmetic expression over this-> / other. fields"""
-    e = strip_casts(e)
-    c = const_int(e)
-    if c is not None and e["k"] == "IntegerLiteral":
-        return Fraction(c)
-    if e["k"] == "FloatingLiteral":
-        return Fraction(e["val"]).limit_denominator(10 ** 6)
-    if e["k"] == "MemberExpr":
-        f = match.field_of(e)
-        base = strip_casts(f[0])
-        who = "this" if base["k"] == "This" else "other"
-        return env[(who, f[1])]
-    if e["k"] == "DeclRefExpr" and e["ref"]["id"] in env:
-        return env[e["ref"]["id"]]
-    b = match.binop(e, ("+", "-", "*", "/"))
-    if b:
-        l, r = frac_eval(b[1], env), frac_eval(b[2], env)
-        if l is None or r is None:
+AG = "tlx::Aggregate"
+FIELDS = ("count_", "mean_", "nvar_", "min_", "max_")
+CTORS = ("CXXConstructExpr", "CXXTemporaryObjectExpr")
+
+
+class AggVal:
+    """an Aggregate held by value during an evaluation (a constructed temporary, a local object, a snapshot of *this)"""
+    def __init__(self, fields):
+        self.fields = dict(fields)
+
+
+def agg_run(tu, f, this_state, other=None, other_did=None, args=None, depth=0):
+    """evaluates the member function f of Aggregate exactly (counts and min/max are integers, mean and nvar rationals) on the
+    object state `this_state`; the Aggregate argument (declaration other_did) has the state `other`.  Whole objects are
+    values (AggVal): constructions, copies, `*this = ...`, member functions and operators called on *this / on a local
+    object are followed; an object that escapes into anything else makes its fields unknown (None), never "unchanged".
+    -> (return value, final fields, skeleton)"""
+    pre = dict(this_state)
+    if depth > 4:
+        raise dtable.Undecidable("%s: Aggregate member calls nest too deep" % f.loc)
+
+    def is_other(base, sk, maybe_ptr):
+        """the expression names the Aggregate argument (directly, through a reference or through a pointer to it)"""
+        if other_did is None:
+            return False
+        if ref_of(base) == other_did or sk.lvalue(base) == other_did:
+            return True
+        return bool(maybe_ptr) and ref_of(base) is not None and sk.load(sk.lvalue(base)) == ("ptr", other_did)
+
+    def cur(sk):
+        return {fld: sk.env.get(("field", fld)) for fld in FIELDS}
+
+    def put(sk, fields):
+        for fld in FIELDS:
+            sk.store(("field", fld), (fields or {}).get(fld))
+
+    def obj_fields(n, sk):
+        """fields of the Aggregate an expression denotes, None if not known"""
+        if is_this_object(n):
+            return cur(sk)
+        if is_other(n, sk, False):
+            return dict(other) if other is not None else None
+        v = sk.ev(n)
+        return dict(v.fields) if isinstance(v, AggVal) else None
+
+    def of_aggregate(c):
+        return c.get("record") == AG or (c.get("qname") or "").startswith(AG + "::")
+
+    def nested(e, sk, callee, obj, rest):
+        """runs the member function `callee` on the object expression obj with the remaining arguments; writes the object back"""
+        fields = obj_fields(obj, sk)
+        local = sk.ev(obj) if not is_this_object(obj) and not is_other(obj, sk, False) else None
+        sub = None
+        if fields is not None and callee is not None and callee.body is not None and len(rest) == len(callee.params) and len(rest) <= 1:
+            if not rest:
+                sub = agg_run(tu, callee, fields, depth=depth + 1)
+            elif "Aggregate" in (callee.params[0].get("ty") or ""):
+                of = obj_fields(rest[0], sk)
+                if of is not None:
+                    sub = agg_run(tu, callee, fields, of, callee.params[0]["did"], depth=depth + 1)
+            else:
+                sub = agg_run(tu, callee, fields, args={callee.params[0]["did"]: sk.ev(rest[0])}, depth=depth + 1)
+        if sub is None:
+            # not followed: whatever the callee may write is unknown from here on
+            if is_this_object(obj):
+                put(sk, None)
+            elif isinstance(local, AggVal):
+                local.fields = {}
             return None
-        if b[0] == "/":
-            if r == 0:
+        ret, final, ssk = sub
+        sk.log.extend(x for x in ssk.log if x[0] == "div0")
+        if is_this_object(obj):
+            put(sk, final)
+        elif isinstance(local, AggVal):
+            local.fields = dict(final)
+        return ret
+
+    def raw(e, sk):
+        """sees every expression before any wrapper is looked through"""
+        k = e["k"]
+        if k in CTORS and of_aggregate(e.get("callee") or {}):
+            if len(kids(e)) == 5:
+                vals = [sk.ev(a_) for a_ in kids(e)]
+                ctor = tu.by_did.get(e["callee"].get("did"))
+                if ctor is None:
+                    raise dtable.Undecidable("%s: Aggregate constructor not in the IR" % f.loc)
+                made = {}
+                for i_ in ctor.inits:
+                    fld = i_.get("field") or i_.get("name")
+                    d_ = ref_of(i_.get("e")) if i_.get("e") is not None else None
+                    idx = ctor.param_index(d_) if d_ is not None else None
+                    if fld and idx is not None:
+                        made[fld] = vals[idx]
+                return AggVal(made)
+            if len(kids(e)) == 1:
+                fields = obj_fields(kids(e)[0], sk)           # copy / move construction
+                return AggVal(fields) if fields is not None else None
+            return None
+        if k == "UnaryOperator" and e.get("op") == "*" and is_this_object(e):
+            return AggVal(cur(sk))                            # *this as a value: a snapshot
+        if "callee" in e and k not in CTORS:
+            c = e["callee"]
+            a_ = kids(e)
+            callee = tu.by_did.get(c.get("did"))
+            if k == "CXXOperatorCallExpr" and e.get("op") == "=" and of_aggregate(c) and len(a_) == 2:
+                fields = obj_fields(a_[1], sk)                # whole-object assignment
+                if is_this_object(a_[0]):
+                    put(sk, fields)
+                    return AggVal(cur(sk))
+                if ref_of(a_[0]) is not None and isinstance(sk.load(sk.lvalue(a_[0])), AggVal):
+                    sk.store(sk.lvalue(a_[0]), AggVal(fields or {}))
+                    return sk.load(sk.lvalue(a_[0]))
                 return None
-            ty = (e.get("ty") or "").replace("const ", "")
-            integral = ty in ("unsigned long", "long", "unsigned int", "int", "unsigned", "unsigned long long", "long long", "size_t", "short", "unsigned short")
-            if integral:
-                q = l / r
-                return Fraction(int(q))        # C++ integer division truncates
-            return l / r
-        return {"+": l + r, "-": l - r, "*": l * r}[b[0]]
-    return None
+            member = bool(a_) and of_aggregate(c) and (e.get("member_call") or k == "CXXOperatorCallExpr")
+            if member and is_this_object(a_[0]) and k != "CXXOperatorCallExpr" and callee is not None and callee.body is not None:
+                return NotImplemented                         # a member function on *this: the skeleton inlines it
+            if member and is_other(a_[0], sk, True):
+                if len(a_) == 1 and callee is not None and callee.body is not None and not callee.params and other is not None:
+                    return agg_run(tu, callee, other, depth=depth + 1)[0]     # an argument-free accessor called on the argument
+                return None
+            if member and (is_this_object(a_[0]) or isinstance(sk.ev(a_[0]), AggVal)):
+                return nested(e, sk, callee, a_[0], a_[1:])
+            # any other call that receives this object: its fields are unknown afterwards
+            if any(is_this_object(x) for x in a_ if x is not None):
+                put(sk, None)
+                return None
+        return NotImplemented
+
+    def event(e, sk):
+        if e["k"] == "MemberExpr" and kids(e):
+            fld = this_field(e)
+            if fld:
+                key = ("field", fld)
+                if key in sk.written and fld in pre and sk.env.get(key) != pre[fld]:
+                    sk.log.append(("dirty", sk.cur, fld, None, None, None))
+                return NotImplemented
+            if is_other(kids(e)[0], sk, e.get("arrow")):
+                return (other or {}).get(e["member"])
+            v = sk.ev(kids(e)[0]) if ref_of(kids(e)[0]) is not None else None
+            if isinstance(v, AggVal):
+                return v.fields.get(e["member"])              # field of a local object
+        return NotImplemented
+    env = {("field", k_): v_ for k_, v_ in this_state.items()}
+    env.update(args or {})
+    ret, sk = cxx_run(tu, f, env, event, raw)
+    final = {k_[1]: v_ for k_, v_ in sk.env.items() if isinstance(k_, tuple) and len(k_) == 2 and k_[0] == "field"}
+    return ret, final, sk
+
+
+def check_aggregate_T(ck, tu, T):
+    fns = {f.name: f for f in tu.find(record=AG) if f.rtargs == [T]}
+    ck.require({"operator+", "operator+=", "combine_means", "combine_variance", "add"} <= set(fns), "Aggregate<%s> members not instantiated" % T)
+    # sample states: (count, mean, nvar, min, max) of *this and of the argument
+    states = [(dict(count_=3, mean_=Fraction(7, 2), nvar_=Fraction(5), min_=2, max_=9), dict(count_=5, mean_=Fraction(-2), nvar_=Fraction(11, 3), min_=5, max_=7)),
+              (dict(count_=3, mean_=Fraction(1, 3), nvar_=Fraction(2), min_=6, max_=8), dict(count_=4, mean_=Fraction(9), nvar_=Fraction(7), min_=1, max_=20))]
+
+    def helper(name, mine, theirs):
+        h = fns[name]
+        ret, _, sk = agg_run(tu, h, mine, theirs, h.params[0]["did"])
+        if not numeric(ret):
+            raise dtable.Undecidable("%s: %s cannot be evaluated on a sample state" % (h.loc, name))
+        return ret
+
+    def wanted(mine, theirs):
+        return {"count_": mine["count_"] + theirs["count_"], "min_": min(mine["min_"], theirs["min_"]), "max_": max(mine["max_"], theirs["max_"]),
+                "mean_": helper("combine_means", mine, theirs), "nvar_": helper("combine_variance", mine, theirs)}
+
+    # ---- pre-state purity of operator+=: evaluated on a sample state; a field that is read after it was overwritten with
+    # another value AND a combined quantity that differs from the one computed on the pre-state
+    def purity():
+        fn = fns["operator+="]
+        mine, theirs = states[0]
+        _, final, sk = agg_run(tu, fn, mine, theirs, fn.params[0]["did"])
+        want = wanted(mine, theirs)
+        dirty = [x for x in sk.log if x[0] == "dirty"]
+        undecided = [k_ for k_ in want if not numeric(final.get(k_))]
+        wrong = [k_ for k_ in want if numeric(final.get(k_)) and final[k_] != want[k_]]
+        if dirty and wrong:
+            s, flds = dirty[0][1], sorted(set(x[2] for x in dirty if x[1] is dirty[0][1]))
+            ck.violation("PRESTATE-PURITY", fn.qname, "%s:%s" % (T, ",".join(flds)),
+                         "operator+= computes %s from %s after it was already overwritten: the combined value mixes the old and the new state "
+                         "(on a sample state %s becomes %s instead of %s)"
+                         % (dtable.describe(s)[:60], flds, wrong[0], final[wrong[0]], want[wrong[0]]), fn.nloc(s) if s is not None else fn.loc)
+        elif dirty and undecided:
+            raise dtable.Undecidable("%s: operator+= reads %s after overwriting it and %s cannot be evaluated" % (fn.loc, dirty[0][2], undecided[0]))
+        else:
+            ck.ok("PRESTATE-PURITY", "Aggregate<%s>::operator+=" % T, "every combined quantity is computed from the pre-state")
+    ck.guarded(purity)
+
+    # ---- operator+ and operator+= each combine the five quantities: evaluated on two sample states
+    def combines(opname):
+        f = fns[opname]
+        for mine, theirs in states:
+            ret, final, sk = agg_run(tu, f, mine, theirs, f.params[0]["did"])
+            result = final if opname == "operator+=" else (ret.fields if isinstance(ret, AggVal) else {})
+            want = wanted(mine, theirs)
+            undecided = [k_ for k_ in want if not numeric(result.get(k_))]
+            wrong = [k_ for k_ in want if numeric(result.get(k_)) and result[k_] != want[k_]]
+            if wrong:
+                k_ = wrong[0]
+                ck.violation("PLUS-COMBINES", f.qname, "%s:%s" % (T, k_),
+                             "%s of (count %d, min %d, max %d) and (count %d, min %d, max %d) leaves %s = %s; it must be %s (count added, mean and variance "
+                             "through combine_means / combine_variance of the argument on the pre-state, min and max of both)"
+                             % (opname, mine["count_"], mine["min_"], mine["max_"], theirs["count_"], theirs["min_"], theirs["max_"], k_, result.get(k_), want[k_]), f.loc)
+                return
+            if undecided:
+                raise dtable.Undecidable("%s: %s: the resulting %s cannot be evaluated on a sample state" % (f.loc, opname, undecided[0]))
+        ck.ok("PLUS-COMBINES", "Aggregate<%s>::%s" % (T, opname), "count, mean, variance, min, max combined from the pre-state on two sample states")
+    for opname in ("operator+", "operator+="):
+        ck.guarded(lambda opname=opname: combines(opname))
+
+    # ---- formulas of the helpers, exactly, on sample points
+    pts = [(3, Fraction(7, 2), Fraction(5), 5, Fraction(-2), Fraction(11, 3)), (1, Fraction(2), Fraction(0), 4, Fraction(9), Fraction(7)),
+           (10, Fraction(1, 3), Fraction(2), 1, Fraction(100), Fraction(0)), (2, Fraction(5), Fraction(1), 2, Fraction(5), Fraction(3))]
+
+    def formula(name):
+        f = fns[name]
+        for (n1, m1, v1, n2, m2, v2) in pts:
+            mine = dict(count_=n1, mean_=m1, nvar_=v1, min_=0, max_=0)
+            theirs = dict(count_=n2, mean_=m2, nvar_=v2, min_=0, max_=0)
+            got, _, sk = agg_run(tu, f, mine, theirs, f.params[0]["did"])
+            if name == "combine_means":
+                want = (m1 * n1 + m2 * n2) / (n1 + n2)
+            else:
+                d = m1 - m2
+                want = v1 + v2 + d * d * n1 * n2 / (n1 + n2)
+            if not numeric(got):
+                raise dtable.Undecidable("%s: return expression is not plain arithmetic" % f.loc)
+            if got != want:
+                ck.violation("COMBINE-FORMULA", f.qname, "%s:%s" % (T, name),
+                             "%s is not the pooled %s: for counts (%d,%d), means (%s,%s) it yields %s instead of %s"
+                             % (name, "mean" if name == "combine_means" else "sum of squared deviations", n1, n2, m1, m2, got, want), f.loc)
+                return
+        ck.ok("COMBINE-FORMULA", "Aggregate<%s>::%s" % (T, name), "equals the pooled formula exactly on %d rational sample points (identity test)" % len(pts))
+    for name in ("combine_means", "combine_variance"):
+        ck.guarded(lambda name=name: formula(name))
+
+    # ---- zero guards of the shared denominator: the helpers are evaluated with one and with two empty operands
+    def divguard(name):
+        f = fns[name]
+        empty = dict(count_=0, mean_=Fraction(0), nvar_=Fraction(0), min_=10 ** 9, max_=-10 ** 9)
+        full = dict(count_=4, mean_=Fraction(5, 2), nvar_=Fraction(3), min_=1, max_=6)
+        for mine, theirs, what in ((empty, empty, "two empty aggregates"), (empty, full, "an empty aggregate and a filled argument"),
+                                   (full, empty, "a filled aggregate and an empty argument")):
+            got, _, sk = agg_run(tu, f, dict(mine), dict(theirs), f.params[0]["did"])
+            div0 = [x for x in sk.log if x[0] == "div0"]
+            if div0:
+                d = div0[0][1]
+                ck.violation("DIV-GUARD", f.qname, "%s:%s" % (T, name), "division by count_ + other.count_ without excluding two empty aggregates (0/0 -> NaN): "
+                             "%s divides by zero for %s" % (dtable.describe(d)[:70], what), f.nloc(d))
+                return
+            if not numeric(got):
+                raise dtable.Undecidable("%s: %s cannot be evaluated for %s" % (f.loc, name, what))
+        ck.ok("DIV-GUARD", "Aggregate<%s>::%s" % (T, name), "count_ + other.count_ cannot be zero at the division (evaluated with one and with two empty operands)")
+    for name in ("combine_means", "combine_variance"):
+        ck.guarded(lambda name=name: divguard(name))
+
+    # ---- add(): count incremented before it divides: add(value) evaluated on the empty aggregate
+    def addorder():
+        f = fns["add"]
+        empty = dict(count_=0, mean_=Fraction(0), nvar_=Fraction(0), min_=10 ** 9, max_=-10 ** 9)
+        try:
+            _, final, sk = agg_run(tu, f, empty, args={f.params[0]["did"]: 5})
+        except dtable.Undecidable as u:
+            raise dtable.Undecidable("%s: add() cannot be evaluated on the empty aggregate (%s)" % (f.loc, u))
+        div0 = [x for x in sk.log if x[0] == "div0"]
+        if div0:
+            ck.violation("ADD-ORDER", f.qname, T, "the running mean divides by count_ before it was incremented (division by zero for the first value): %s"
+                         % dtable.describe(div0[0][1])[:70], f.nloc(div0[0][1]))
+        elif final.get("count_") != 1 or not numeric(final.get("mean_")):
+            raise dtable.Undecidable("%s: add() on the empty aggregate leaves count_ = %s, mean_ = %s: not understood"
+                                     % (f.loc, final.get("count_"), final.get("mean_")))
+        else:
+            ck.ok("ADD-ORDER", "Aggregate<%s>::add" % T, "count_ is incremented before the running mean divides by it")
+    ck.guarded(addorder)
 
 
 def check_aggregate(ck, tu):
-    AG = "tlx::Aggregate"
     for T in ("double", "int"):
-        fns = {f.name: f for f in tu.find(record=AG) if f.rtargs == [T]}
-        ck.require({"operator+", "operator+=", "combine_means", "combine_variance", "add"} <= set(fns), "Aggregate<%s> members not instantiated" % T)
-        # ---- pre-state purity of operator+=
-        fn = fns["operator+="]
-        g = cfgm.CFG(fn)
-        stmts = [s for s in kids(fn.body)]
-        written = []
-        bad = None
-        helper_reads = {}
-        for name in ("combine_means", "combine_variance"):
-            helper_reads[name] = set(match.this_field(y) for y in fns[name].nodes() if y["k"] == "MemberExpr" and match.this_field(y))
-        for s in stmts:
-            b = match.binop(s, ("=", "+=", "-="))
-            if not b:
-                continue
-            reads = set(match.this_field(y) for y in ir.walk(b[2]) if y["k"] == "MemberExpr" and match.this_field(y))
-            for c in ir.walk(b[2]):
-                if "callee" in c and c["callee"]["name"] in helper_reads and c.get("member_call"):
-                    reads |= helper_reads[c["callee"]["name"]]
-            clash = [w for w in written if w in reads]
-            if clash and bad is None:
-                bad = (s, clash)
-            f = match.this_field(b[1])
-            if f:
-                written.append(f)
-        if bad:
-            ck.violation("PRESTATE-PURITY", fn.qname, "%s:%s" % (T, ",".join(bad[1])),
-                         "operator+= computes %s from %s after it was already overwritten: the combined value mixes the old and the new state"
-                         % (dtable.describe(bad[0])[:60], bad[1]), fn.nloc(bad[0]))
-        else:
-            ck.ok("PRESTATE-PURITY", "Aggregate<%s>::operator+=" % T, "every combined quantity is computed from the pre-state")
-        # ---- operator+ and operator+= each combine the five quantities: evaluated on a sample state, the helper calls observed
-        from engine import skel
-        for opname in ("operator+", "operator+="):
-            f = fns[opname]
-            other = f.params[0]["did"]
-            for mine, theirs in (((3, 2, 9), (4, 5, 7)), ((3, 6, 8), (4, 1, 20))):       # (count, min, max)
-                A = {"count_": theirs[0], "min_": theirs[1], "max_": theirs[2], "mean_": ("a.mean",), "nvar_": ("a.nvar",)}
-                result = {}
-
-                def event(e, sk, A=A, other=other, f=f, result=result):
-                    if e["k"] == "MemberExpr" and kids(e) and not match.this_field(e):
-                        base = kids(e)[0]
-                        if ref_of(base) == other or sk.lvalue(base) == other:
-                            return A.get(e["member"])
-                    if "callee" in e and e.get("member_call") and e["callee"]["name"] in ("combine_means", "combine_variance") and len(kids(e)) == 2:
-                        arg_is_other = ref_of(kids(e)[1]) == other or sk.lvalue(kids(e)[1]) == other
-                        pre = tuple((fld_, sk.env.get(("field", fld_))) for fld_ in sorted(x_ for x_ in helper_reads[e["callee"]["name"]] if x_))
-                        return (e["callee"]["name"], arg_is_other, pre)
-                    if e["k"] in ("CXXConstructExpr", "CXXTemporaryObjectExpr") and (e.get("callee") or {}).get("record") == AG and len(kids(e)) == 5:
-                        vals = [sk.ev(a_) for a_ in kids(e)]
-                        ctor = tu.by_did.get(e["callee"].get("did"))
-                        if ctor is None:
-                            raise dtable.Undecidable("%s: Aggregate constructor not in the IR" % f.loc)
-                        for i_ in ctor.inits:
-                            fld = i_.get("field") or i_.get("name")
-                            d_ = ref_of(i_.get("e")) if i_.get("e") is not None else None
-                            idx = ctor.param_index(d_) if d_ is not None else None
-                            if fld and idx is not None:
-                                result[fld] = vals[idx]
-                        return ("agg",)
-                    return NotImplemented
-                pre_state = {("field", "count_"): mine[0], ("field", "min_"): mine[1], ("field", "max_"): mine[2],
-                             ("field", "mean_"): ("mean",), ("field", "nvar_"): ("nvar",)}
-                sk = skel.Skel(f, dict(pre_state), None, event)
-                try:
-                    sk.run(kids(f.body))
-                except skel.Return:
-                    pass
-                if opname == "operator+=":
-                    result = {k_[1]: v_ for k_, v_ in sk.env.items() if isinstance(k_, tuple) and k_[0] == "field"}
-                pre0 = {"count_": mine[0], "mean_": ("mean",), "nvar_": ("nvar",), "min_": mine[1], "max_": mine[2]}
-
-                def pre(h_):
-                    return tuple((fld_, pre0.get(fld_)) for fld_ in sorted(x_ for x_ in helper_reads[h_] if x_))
-                want = {"count_": mine[0] + theirs[0], "min_": min(mine[1], theirs[1]), "max_": max(mine[2], theirs[2]),
-                        "mean_": ("combine_means", True, pre("combine_means")), "nvar_": ("combine_variance", True, pre("combine_variance"))}
-                wrong = [k_ for k_ in want if result.get(k_) != want[k_]]
-                if wrong:
-                    k_ = wrong[0]
-                    ck.violation("PLUS-COMBINES", f.qname, "%s:%s" % (T, k_),
-                                 "%s of (count %d, min %d, max %d) and (count %d, min %d, max %d) leaves %s = %s; it must be %s (count added, mean and variance "
-                                 "through combine_means / combine_variance of the argument on the pre-state, min and max of both)"
-                                 % (opname, mine[0], mine[1], mine[2], theirs[0], theirs[1], theirs[2], k_, result.get(k_), want[k_]), f.loc)
-                    break
-            else:
-                ck.ok("PLUS-COMBINES", "Aggregate<%s>::%s" % (T, opname), "count, mean, variance, min, max combined from the pre-state on two sample states")
-        # ---- formulas of the helpers, exactly, on sample points
-        pts = [(3, Fraction(7, 2), Fraction(5), 5, Fraction(-2), Fraction(11, 3)), (1, Fraction(2), Fraction(0), 4, Fraction(9), Fraction(7)),
-               (10, Fraction(1, 3), Fraction(2), 1, Fraction(100), Fraction(0)), (2, Fraction(5), Fraction(1), 2, Fraction(5), Fraction(3))]
-        for name in ("combine_means", "combine_variance"):
-            f = fns[name]
-            rets = [x for x in f.nodes() if x["k"] == "ReturnStmt"]
-            e = kids(rets[-1])[0]
-            okf = True
-            for (n1, m1, v1, n2, m2, v2) in pts:
-                env = {("this", "count_"): Fraction(n1), ("this", "mean_"): m1, ("this", "nvar_"): v1,
-                       ("other", "count_"): Fraction(n2), ("other", "mean_"): m2, ("other", "nvar_"): v2}
-                for y in f.nodes():
-                    if y["k"] == "VarDecl" and kids(y):
-                        env[y["did"]] = frac_eval(kids(y)[0], env)
-                got = frac_eval(e, env)
-                if name == "combine_means":
-                    want = (m1 * n1 + m2 * n2) / (n1 + n2)
-                else:
-                    d = m1 - m2
-                    want = v1 + v2 + d * d * n1 * n2 / (n1 + n2)
-                if got is None:
-                    raise dtable.Undecidable("%s: return expression is not plain arithmetic" % f.loc)
-                if got != want:
-                    okf = False
-                    ck.violation("COMBINE-FORMULA", f.qname, "%s:%s" % (T, name),
-                                 "%s is not the pooled %s: for counts (%d,%d), means (%s,%s) it yields %s instead of %s"
-                                 % (name, "mean" if name == "combine_means" else "sum of squared deviations", n1, n2, m1, m2, got, want), f.loc)
-                    break
-            if okf:
-                ck.ok("COMBINE-FORMULA", "Aggregate<%s>::%s" % (T, name), "equals the pooled formula exactly on %d rational sample points (identity test)" % len(pts))
-        # ---- zero guards of the shared denominator
-        for name in ("combine_means", "combine_variance"):
-            f = fns[name]
-            divs = [y for y in f.nodes() if match.binop(y, ("/",)) and strip_casts(y)["k"] == "BinaryOperator"]
-            g2 = cfgm.CFG(f)
-            for d in divs:
-                den = match.binop(d, ("/",))[2]
-                for _ in range(3):
-                    dd = ref_of(den)
-                    dv = [v for v in f.nodes() if v["k"] == "VarDecl" and v.get("did") == dd and kids(v) and kids(v)[0] is not None] if dd is not None else []
-                    if not dv:
-                        break
-                    den = kids(dv[0])[0]          # a local standing for the denominator
-                flds = set((match.field_of(y) or (None, None))[1] for y in ir.walk(den) if y["k"] == "MemberExpr")
-                if flds != {"count_"}:
-                    continue
-                guards = set()
-                for y in f.nodes():
-                    if y["k"] == "IfStmt":
-                        c = match.binop(kids(y)[0], ("==",))
-                        if c and const_int(c[2]) == 0 and (match.field_of(c[1]) or (None, None))[1] == "count_" and \
-                                any(z["k"] == "ReturnStmt" for z in ir.walk(kids(y)[1])) and g2.dominates(g2.pos_deep(kids(y)[0]), g2.pos_deep(d)):
-                            base = strip_casts(match.field_of(c[1])[0])
-                            guards.add("this" if base["k"] == "This" else "other")
-                        c2 = match.binop(kids(y)[0], ("==",))
-                        if c2 and const_int(c2[2]) == 0 and match.binop(c2[1], ("+",)) and \
-                                any(z["k"] == "ReturnStmt" for z in ir.walk(kids(y)[1])):
-                            guards |= {"this", "other"}
-                if guards:
-                    ck.ok("DIV-GUARD", "Aggregate<%s>::%s" % (T, name), "count_ + other.count_ cannot be zero at the division (guards: %s)" % sorted(guards))
-                else:
-                    ck.violation("DIV-GUARD", f.qname, "%s:%s" % (T, name), "division by count_ + other.count_ without excluding two empty aggregates (0/0 -> NaN)", f.nloc(d))
-        # ---- add(): count incremented before it divides
-        f = fns["add"]
-        g3 = cfgm.CFG(f)
-        inc = [y for y in f.nodes() if match.unop(y, ("++",)) and match.this_field(match.unop(y, ("++",))[1]) == "count_"]
-        divs = [y for y in f.nodes() if match.binop(y, ("/", "/=")) and match.this_field(match.binop(y, ("/", "/="))[2]) == "count_"]
-        if inc and divs and all(g3.dominates(g3.pos(inc[0]), g3.pos_deep(d)) for d in divs):
-            ck.ok("ADD-ORDER", "Aggregate<%s>::add" % T, "count_ is incremented before the running mean divides by it")
-        else:
-            ck.violation("ADD-ORDER", f.qname, T, "the running mean divides by count_ before it was incremented (division by zero for the first value)", f.loc)
+        ck.guarded(lambda T=T: check_aggregate_T(ck, tu, T))
 
 
 def run(ck):
@@ -476,7 +1148,9 @@ def run(ck):
         "helpers must not add to the raw argument before narrowing (div_ceil, round_up, round_down_to_power_of_two) and the power-of-two predicate must "
         "reject non-positive values before i & (i-1). Aggregate: operator+= computes every quantity from the pre-state, + and += use the same helpers, the "
         "helpers equal the pooled mean / sum-of-squares formulas exactly (rational identity test on the extracted expressions), the shared denominator is "
-        "guarded against two empty operands. Not decided: the loop-based templates (clz/ctz/ffs/log2), popcount SWAR arithmetic, floating-point rounding.")
+        "guarded against two empty operands. A violation is only reported with a concrete counterexample of an evaluation with C++ value semantics; an "
+        "unusual form that cannot be evaluated is 'cannot decide'. Not decided: the loop-based templates (clz/ctz/ffs/log2), popcount SWAR arithmetic, "
+        "floating-point rounding.")
     tu = ir.extract("witness/C20_math.cpp")
     check_families(ck, tu)
     check_bits(ck, tu)
